@@ -108,7 +108,9 @@ Lemma data_archetypes_rule lk w ids last ds : data_archetypes lk w ids last = in
   Forall (fun '(a, d) => (pa_id a = None -> (da_id d < 256)%N) /\
                          dc_id <$> da_comps d = rule_ids (pc_id <$> enabled_comps lk (pa_comps a)) None /\
                          dc_name <$> da_comps d = pc_name <$> enabled_comps lk (pa_comps a) /\
-                         NoDup (dc_id <$> da_comps d)) (zip (enabled_archs lk w) ds).
+                         NoDup (dc_id <$> da_comps d) /\
+                         Forall (fun '(c, dc) => pc_id c = None -> (dc_id dc < 256)%N) (zip (enabled_comps lk (pa_comps a)) (da_comps d)))
+         (zip (enabled_archs lk w) ds).
 Proof.
   revert ids last ds. induction w as [|a r IH]; intros ids last ds H; cbn [data_archetypes] in H.
   - injection H as <-. unfold enabled_archs. cbn. rewrite app_nil_r. done.
@@ -120,7 +122,7 @@ Proof.
     destruct (data_archetypes lk r ids' (Some i)) as [e|ds'] eqn:Hd; [done|]. injection H as <-.
     destruct (advance_ok _ _ _ _ _ _ Ha) as (Hi & Hids & Hfresh & Hlt).
     destruct (IH _ _ _ Hd) as (IH1 & IH2 & IH3 & IH4).
-    destruct (data_components_rule _ _ _ _ _ Hc) as (C1 & C2 & C3 & _).
+    destruct (data_components_rule _ _ _ _ _ Hc) as (C1 & C2 & C3 & C4).
     cbn [fmap list_fmap rule_ids da_id da_name]. rewrite <- Hi. split_and!.
     + by rewrite IH1.
     + by rewrite IH2.
@@ -128,7 +130,7 @@ Proof.
       replace ((fst <$> ids) ++ i :: (da_id <$> ds')) with (((fst <$> ids) ++ [i]) ++ (da_id <$> ds')) by (by rewrite <- app_assoc).
       apply IH3. apply NoDup_app. split_and!; [done| |apply NoDup_singleton].
       intros x Hx Hx'. apply elem_of_list_singleton in Hx'. by subst.
-    + cbn [zip zip_with]. constructor; [|done]. cbn [da_comps da_id]. split_and!; [done|done|done|].
+    + cbn [zip zip_with]. constructor; [|done]. cbn [da_comps da_id]. split_and!; [done|done|done| |done].
       specialize (C3 (NoDup_nil_2)). by rewrite app_nil_l in C3.
 Qed.
 
@@ -144,7 +146,7 @@ Theorem data_world_new_ids w states ds : data_world_new w states = inr ds ->
 Proof.
   intros H lk. destruct (data_archetypes_rule _ _ _ _ _ H) as (H1 & H2 & H3 & H4).
   split_and!; [done|done|by apply (H3 NoDup_nil_2)|].
-  eapply Forall_impl; [exact H4|]. intros [a d] (_ & ? & ? & ?). done.
+  eapply Forall_impl; [exact H4|]. intros [a d] (_ & ? & ? & ? & _). done.
 Qed.
 
 (** Implicit ids never exceed 255 (the checked successor), explicit ones are u8 by parsing. *)
@@ -154,6 +156,121 @@ Theorem data_world_new_implicit_ids_u8 w states ds : data_world_new w states = i
 Proof.
   intros H. destruct (data_archetypes_rule _ _ _ _ _ H) as (_ & _ & _ & H4).
   eapply Forall_impl; [exact H4|]. intros [a d] (? & _). done.
+Qed.
+
+(* ---------------------------------------------------------------- C15, converse: when the rule is satisfiable, DataWorld::new succeeds *)
+
+(** The discriminant rule is satisfiable for a list of (explicit id option)s: no implicit id counts
+    past 255, the ids are pairwise distinct and none is already held. *)
+Definition rule_ok (xs : list (option N)) (last : option N) (held : list N) : Prop :=
+  NoDup (rule_ids xs last) /\ (forall i, i ∈ rule_ids xs last -> i ∉ held) /\
+  Forall (fun '(x, i) => x = None -> (i < 256)%N) (zip xs (rule_ids xs last)).
+
+Lemma advance_complete explicit name ids last :
+  let i := match explicit with Some i => i | None => match last with Some l => (l + 1)%N | None => 0%N end end in
+  (explicit = None -> (i < 256)%N) -> i ∉ (fst <$> ids) ->
+  advance_attribute_id explicit name ids last = inr (i, ids ++ [(i, name)]).
+Proof.
+  intros i Hlt Hfresh. unfold advance_attribute_id.
+  assert (Hn : (match explicit with
+                | Some i => inr i
+                | None => match last with
+                          | Some l => match attr_succ l with Some n => inr n | None => inl (EExceeds name) end
+                          | None => inr attr_first end end) = (inr i : data_err + N)).
+  { unfold i in *. destruct explicit as [e|]; [done|]. destruct last as [l|]; [|done].
+    rewrite attr_succ_spec. specialize (Hlt eq_refl). destruct (N.ltb_spec (l + 1) 256); [done|lia]. }
+  rewrite Hn. destruct (list_find (fun x => fst x = i) ids) as [[k [i' h]]|] eqn:Hf; [|done].
+  exfalso. apply list_find_Some in Hf as (Hl & Hp & _). simpl in Hp. subst i'. apply Hfresh.
+  apply elem_of_list_fmap. exists (i, h). split; [done|by eapply elem_of_list_lookup_2].
+Qed.
+
+Lemma rule_ok_cons x xs last held :
+  rule_ok (x :: xs) last held ->
+  let i := match x with Some i => i | None => match last with Some l => (l + 1)%N | None => 0%N end end in
+  (x = None -> (i < 256)%N) /\ i ∉ held /\ rule_ok xs (Some i) (held ++ [i]).
+Proof.
+  intros (Hnd & Hh & Hlt) i. cbn [rule_ids] in *. fold i in Hnd, Hh, Hlt.
+  apply NoDup_cons in Hnd as [Hni Hnd]. cbn [zip zip_with] in Hlt. apply Forall_cons in Hlt as [Hlt0 Hlt].
+  split_and!; [done|apply Hh; by left|]. split_and!; [done| |done].
+  intros j Hj Hin. apply elem_of_app in Hin as [Hin|Hin%elem_of_list_singleton]; [apply (Hh j); [by right|done]|by subst].
+Qed.
+
+Lemma data_components_complete lk cs ids last :
+  Forall (fun c => is_Some (evaluate_cfgs lk (pc_cfgs c))) cs ->
+  rule_ok (pc_id <$> enabled_comps lk cs) last (fst <$> ids) ->
+  exists ds, data_components lk cs ids last = inr ds.
+Proof.
+  revert ids last. induction cs as [|c r IH]; intros ids last Hlk Hok; cbn [data_components]; [by eexists|].
+  apply Forall_cons in Hlk as [[b Hb] Hlk]. rewrite Hb. unfold enabled_comps in Hok. rewrite filter_cons in Hok. fold (enabled_comps lk r) in Hok.
+  destruct b.
+  - rewrite decide_True in Hok by done. cbn [fmap list_fmap] in Hok.
+    destruct (rule_ok_cons _ _ _ _ Hok) as (Hlt & Hfresh & Hrest).
+    rewrite (advance_complete (pc_id c) (pc_name c) ids last Hlt Hfresh).
+    set (i := match pc_id c with Some i => i | None => match last with Some l => (l + 1)%N | None => 0%N end end) in *.
+    destruct (IH (ids ++ [(i, pc_name c)]) (Some i) Hlk) as [ds Hds].
+    { by rewrite fmap_app. }
+    rewrite Hds. by eexists.
+  - rewrite decide_False in Hok by (by rewrite Hb). by apply IH.
+Qed.
+
+Lemma data_archetypes_complete lk w ids last :
+  Forall (fun a => is_Some (evaluate_cfgs lk (pa_cfgs a)) /\ Forall (fun c => is_Some (evaluate_cfgs lk (pc_cfgs c))) (pa_comps a)) w ->
+  rule_ok (pa_id <$> enabled_archs lk w) last (fst <$> ids) ->
+  Forall (fun a => rule_ok (pc_id <$> enabled_comps lk (pa_comps a)) None []) (enabled_archs lk w) ->
+  exists ds, data_archetypes lk w ids last = inr ds.
+Proof.
+  revert ids last. induction w as [|a r IH]; intros ids last Hlk Hok Hcs; cbn [data_archetypes]; [by eexists|].
+  apply Forall_cons in Hlk as [[[b Hb] Hlkc] Hlk]. rewrite Hb.
+  unfold enabled_archs in Hok, Hcs. rewrite filter_cons in Hok, Hcs. fold (enabled_archs lk r) in Hok, Hcs.
+  destruct b.
+  - rewrite decide_True in Hok, Hcs by done. cbn [fmap list_fmap] in Hok. apply Forall_cons in Hcs as [Hc Hcs].
+    destruct (rule_ok_cons _ _ _ _ Hok) as (Hlt & Hfresh & Hrest).
+    rewrite (advance_complete (pa_id a) (pa_name a) ids last Hlt Hfresh).
+    destruct (data_components_complete lk (pa_comps a) [] None Hlkc Hc) as [cs ->].
+    set (i := match pa_id a with Some i => i | None => match last with Some l => (l + 1)%N | None => 0%N end end) in *.
+    destruct (IH (ids ++ [(i, pa_name a)]) (Some i) Hlk) as [ds Hds].
+    { by rewrite fmap_app. }
+    { done. }
+    rewrite Hds. by eexists.
+  - rewrite decide_False in Hok, Hcs by (by rewrite Hb). by apply IH.
+Qed.
+
+(** C15, both directions: DataWorld::new succeeds exactly when every cfg predicate has a state and
+    the discriminant rule is satisfiable for the enabled archetypes and for the enabled components of
+    each enabled archetype; otherwise the declaration does not compile. *)
+Lemma zip_fmap_lt {A B} (f : A -> option N) (g : B -> N) (cs : list A) (ds : list B) :
+  Forall (fun '(c, d) => f c = None -> (g d < 256)%N) (zip cs ds) -> length ds = length cs ->
+  Forall (fun '(x, i) => x = None -> (i < 256)%N) (zip (f <$> cs) (g <$> ds)).
+Proof.
+  revert ds. induction cs as [|c cs IH]; intros [|d ds] H Hl; cbn in *; try done; try constructor.
+  - by apply Forall_cons in H as [? _].
+  - apply Forall_cons in H as [_ H]. apply IH; [done|lia].
+Qed.
+
+Theorem data_world_new_succeeds_iff w states :
+  let lk := cfg_lookup (world_predicates w) states in
+  Forall (fun a => is_Some (evaluate_cfgs lk (pa_cfgs a)) /\ Forall (fun c => is_Some (evaluate_cfgs lk (pc_cfgs c))) (pa_comps a)) w ->
+  ((exists ds, data_world_new w states = inr ds) <->
+   (rule_ok (pa_id <$> enabled_archs lk w) None [] /\
+    Forall (fun a => rule_ok (pc_id <$> enabled_comps lk (pa_comps a)) None []) (enabled_archs lk w))).
+Proof.
+  intros lk Hlk. split.
+  - intros [ds H]. destruct (data_archetypes_rule _ _ _ _ _ H) as (H1 & H2 & H3 & H4). fold lk in H1, H2, H4.
+    assert (Hlen : length ds = length (enabled_archs lk w)) by (rewrite <- (fmap_length da_name ds), H2; by rewrite fmap_length).
+    split.
+    + split_and!.
+      * rewrite <- H1. by apply (H3 NoDup_nil_2).
+      * intros i _. apply not_elem_of_nil.
+      * rewrite <- H1. apply zip_fmap_lt; [|done]. eapply Forall_impl; [exact H4|]. intros [a d] (? & _). done.
+    + clear -H4 Hlen. revert ds H4 Hlen. induction (enabled_archs lk w) as [|a l IH]; intros [|d ds] H4 Hlen; cbn in *; try done; try constructor.
+      * apply Forall_cons in H4 as [(_ & C1 & C2 & C3 & C4) _].
+        assert (Hl : length (da_comps d) = length (enabled_comps lk (pa_comps a))) by (rewrite <- (fmap_length dc_name (da_comps d)), C2; by rewrite fmap_length).
+        split_and!.
+        -- by rewrite <- C1.
+        -- intros i _. apply not_elem_of_nil.
+        -- rewrite <- C1. by apply zip_fmap_lt.
+      * apply Forall_cons in H4 as [_ H4]. eapply IH; [done|lia].
+  - intros [Ha Hc]. by apply data_archetypes_complete.
 Qed.
 
 (* ================================================================ C16: cfg-disabled items behave as absent *)
